@@ -696,6 +696,23 @@ pub fn run(opts: &Opts, out: &mut Emitter, prop: &str) {
                 out.case("scalar-shape", || case(&t, false, true));
             }
         }
+        // the amount of an entry of an output, of a mint and of a burn is read by the same function: nested entries
+        for depth in [1usize, 2, 4] {
+            for (k, q) in [2_000_000i128, 0, -1, 1 << 64].into_iter().enumerate() {
+                for token in [false, true] {
+                    let mut t = empty_tx();
+                    t.fees = ada(1);
+                    t.inputs.push(tir::Input { name: "a".into(), utxos: E::UtxoRefs(vec![UtxoRef { txid: vec![1; 32], index: 0 }]), redeemer: E::None });
+                    let amount = E::Assets(vec![tir::AssetExpr {
+                        policy: if token { E::Bytes(policy(1)) } else { E::None },
+                        asset_name: if token { E::Bytes(b"TK".to_vec()) } else { E::None },
+                        amount: nest(&E::Number(q), depth, (k + depth) % 2 == 0),
+                    }]);
+                    t.outputs.push(tir::Output { address: E::Address(ADDR_A.to_vec()), datum: E::None, amount, optional: false });
+                    out.case("scalar-shape", || case(&t, false, true));
+                }
+            }
+        }
     }
     // mint/burn stress: partial sums that overflow 64 bits although the net fits, exact cancels
     {
